@@ -47,7 +47,7 @@ func instancesFor(prop, tier string) []*Instance {
 			return
 		}
 		if in.Timeout == 0 {
-			in.Timeout = 240 * time.Second
+			in.Timeout = 300 * time.Second
 			if thorough {
 				in.Timeout = 40 * time.Minute
 			}
@@ -354,7 +354,7 @@ func c02Instances(add func(*Instance), thorough bool, inv int) {
 			topTier = 1
 		}
 		rgs := []rg{
-			{two, 0, 262143, 0, 0, ln, 0},                                   // short range anywhere in keys 0..3 (free low bits)
+			{two, 0, 262143, 0, 0, 3, 0},                                    // short range anywhere in keys 0..3 (free low bits); length <= 7 below (thorough)
 			{three, 65528, 15, 131064, 15, -1, 1},                           // long: from the end of chunk 0 across chunk 1 into chunk 2
 			{P("ak", 3, "akeys", 4, "acow", 0, "ac0", 1, "ac1", 220, "ac2", 1), 65528, 15, 131064, 15, -1, 0}, // same with tiny chunks
 			{three, 0, 7, 196600, 15, -1, 1},                                // covers every chunk
@@ -364,7 +364,7 @@ func c02Instances(add func(*Instance), thorough bool, inv int) {
 			{bmp, 65536 + 60, 7, 65536 + 65528, 7, -1, 1},                   // almost the whole bitmap chunk (-> full / empty)
 			{full, 100, 7, 65530, 7, -1, 0},                                 // inside a full run chunk
 			{P("ak", 1, "akeys", 4, "acow", 1, "ac0", 212), 0, 65535, 0, 0, ln, 1}, // free run lengths, cow
-			{P("ak", 1, "akeys", 4, "acow", 1, "ac0", 202), 0, 65535, 0, 0, 3, topTier},  // short runs, cow
+			{P("ak", 1, "akeys", 4, "acow", 1, "ac0", 202), 0, 65535, 0, 0, 3, 1},  // short runs, cow (2-4 min each since minimizeRunContainer joined the range paths)
 			{P("ak", 1, "akeys", 4, "acow", 1, "ac0", 201), 0, 65535, 0, 0, 3, 0},        // one short run, cow
 			{two, 0, 262143, 0, 0, 7, 1},
 			{P("ak", 1, "akeys", 4, "acow", 0, "ac0", 13), 30720, 31, 30800, 31, -1, 1}, // range on a 4096-element array
@@ -449,12 +449,19 @@ func c14Instances(add func(*Instance), thorough bool) {
 	for _, sh := range shapes {
 		for m := 0; m <= 5; m++ {
 			for opt := 0; opt <= 1; opt++ {
-				ln := 7
+				ln := 3
 				if m == 5 {
 					ln = 2
 				}
+				tier := 0
+				if m == 5 && sh["ac0"] == 202 {
+					tier = 1 // Flip over two free runs: > 4 min
+				}
 				pp := with(sh, "m", m, "opt", opt, "eff", 1, "L", 7, "xb", 0, "xm", -1, "sb", 0, "sm", 262143, "len", ln)
-				add(&Instance{Func: "VerifC14Step", Params: pp, Solvers: sv})
+				add(&Instance{Func: "VerifC14Step", Params: pp, Solvers: sv, Tier: tier})
+				if m >= 3 && m != 5 {
+					add(&Instance{Func: "VerifC14Step", Params: with(pp, "len", 7), Solvers: sv, Tier: 1})
+				}
 			}
 		}
 	}
